@@ -20,12 +20,13 @@ pub const DEF: PropDef = PropDef {
            (cap) oversize streams must be refused with Tag / NonEmpty failure / TooLarge leaving buffer and type unchanged (hook) and the defragmentation must still \
            complete; history = sequences of up to 40 (thorough 120) operations {parse_record, parse_record_nocopy, reset} over fragments, self-contained records of all \
            types, foreign records, empty records and inconsistent headers, run against the reference model 'accumulate then one-shot parse' and against a shadow parser \
-           that is fresh at every point where no defragmentation is in progress; cap = never-completing streams driven to the 10 MiB limit with generated record sizes. \
+           that is fresh at every point where no defragmentation is in progress; cap = never-completing streams driven to the 10 MiB limit with generated record sizes; big_heartbeat = heartbeat messages of 48 KiB .. 3+65535+padding bytes \
+           sent in records within the record-length cap, with the fragment boundaries steered onto 65535..65539 accumulated bytes. \
            Non-trivial = a history with at least one call made while defragmentation is in progress; distinct by hash of the operation list.",
     assumptions: &[
         "the reference model answers with the public one-shot parser parse_tls_record_with_header on its own concatenation of the fragments; the messages of split payloads are additionally compared with the RFC model values",
         "where the statement is silent (a continuation ending in an error other than Complete / Tag / TooLarge) only the returned value is compared and the model adopts the implementation's observable state (flag and hook buffer)",
-        "heartbeat totals are kept <= 65535 bytes (the pseudo header length is a u16)",
+        "a heartbeat message can be 3 + 65535 + padding bytes, more than the u16 length of a record header can state: the model's one-shot parse of an accumulated buffer states min(length, 65535) (the heartbeat parser only asks for at least 3)",
         "hooks verif_defrag_buffer / verif_current_type (cfg tls_parser_verif) are read-only accessors",
     ],
     run,
@@ -37,6 +38,7 @@ pub const SUBS: &[SubDef] = &[
     SubDef { prop: "C07", name: "history", oracle: history },
     SubDef { prop: "C07", name: "cap", oracle: cap },
     SubDef { prop: "C07", name: "oversize_first", oracle: oversize_first },
+    SubDef { prop: "C07", name: "big_heartbeat", oracle: big_heartbeat },
 ];
 
 fn run(ctx: &Ctx) {
@@ -45,6 +47,7 @@ fn run(ctx: &Ctx) {
     ctx.run_tape("history", history, ctx.pick(18_000, 300_000), if ctx.tier == Tier::Quick { 1200 } else { 3000 });
     ctx.run_tape("cap", cap, ctx.pick(12, 120), 64);
     ctx.run_tape("oversize_first", oversize_first, ctx.pick(8, 48), 64);
+    ctx.run_tape("big_heartbeat", big_heartbeat, ctx.pick(400, 6000), 64);
 }
 
 pub const MAX_DATA: usize = 10 * 1024 * 1024;
@@ -177,7 +180,8 @@ impl Model {
                     return Sum::Error(ErrorKind::TooLarge);
                 }
                 self.buf.extend_from_slice(&r.data);
-                let s = oneshot(&self.buf, r.ctype, r.version, self.buf.len() as u16);
+                // the pseudo header states the accumulated length; a u16 cannot state more than 65535 (a heartbeat message can be 3 + 65535 + padding bytes)
+                let s = oneshot(&self.buf, r.ctype, r.version, self.buf.len().min(65535) as u16);
                 match s {
                     Sum::Ok { .. } => {
                         self.path = "completion";
@@ -527,6 +531,95 @@ fn oversize_first(t: &mut Tape, obs: &mut Obs) -> R {
     ensure!(matches!(got, Sum::Ok { .. }), "C07:oversize-first:after-reset", "after reset() a complete record answered {}", show_sum(&got));
     obs.nontrivial(n as u64);
     obs.sample(json!({"first_fragment_bytes": n}));
+    Ok(())
+}
+
+/// heartbeat messages larger than one record, up to the largest legal one (3 + 65535 + padding), in records within the cap
+fn big_heartbeat(t: &mut Tape, obs: &mut Obs) -> R {
+    let plen = match t.weighted(&[4, 2, 2, 1, 3]) {
+        0 => 65535usize,
+        1 => 65534,
+        2 => 65533,
+        3 => 65532 - t.below(8),
+        _ => 49152 + t.below(16384),
+    };
+    let payload: Vec<u8> = {
+        let seed = t.u8();
+        (0..plen).map(|i| (i as u8).wrapping_mul(31).wrapping_add(seed)).collect()
+    };
+    let padding = if t.chance(32) { Vec::new() } else { vec![t.u8(); 16 + t.below(240)] };
+    let ty = t.pick(&[1u8, 2, 1, 2, 0, 255]);
+    let msg = MMsg::Heartbeat { ty, payload_len: plen as u16, payload };
+    let rec = MRecord { ctype: 0x18, version: 0x0303, msgs: vec![msg.clone()], padding: padding.clone() };
+    let bytes = rec.payload_bytes();
+    let first = 3 + plen;
+    // fragment boundaries: record-sized steps, steered onto an accumulated length around 64 KiB when one is in reach
+    let target = 65535 + t.below(5);
+    let mut cuts = Vec::new();
+    let mut pos = 0usize;
+    loop {
+        let to_target = target.saturating_sub(pos);
+        let stepn = if to_target > 0 && to_target <= 16384 && t.chance(200) {
+            to_target
+        } else {
+            match t.weighted(&[5, 2, 2, 1]) {
+                0 => 16384,
+                1 => 1 + t.below(16384),
+                2 => 16384 - t.below(4),
+                _ => t.below(4),
+            }
+        };
+        pos += stepn;
+        if pos >= first {
+            break;
+        }
+        cuts.push(pos);
+        if cuts.len() > 64 {
+            break;
+        }
+    }
+    // the last record carries the rest of the message and the padding; keep it within the cap
+    while bytes.len() - cuts.last().copied().unwrap_or(0) > 16640 {
+        let c = cuts.last().copied().unwrap_or(0) + 16384;
+        if c >= first {
+            cuts.push(first - 1);
+        } else {
+            cuts.push(c);
+        }
+    }
+    let frags = fragments(&bytes, &cuts);
+    let descr = frags.iter().map(|f| f.len().to_string()).collect::<Vec<_>>().join("+");
+    let boundaries: Vec<usize> = cuts.clone();
+    let version = gen_version(t);
+    let mut p = TlsRecordsParser::default();
+    let mut m = Model::default();
+    for (i, f) in frags.iter().enumerate() {
+        let got = step(&mut p, &mut m, &Op::Parse(Rec::new(0x18, version, f.clone())), &descr)?;
+        if i + 1 < frags.len() {
+            ensure!(matches!(got, Sum::Incomplete(_)), "C07:big-heartbeat:not-incomplete", "heartbeat of 3+{}+{} bytes sent as {}: after fragment {} ({} bytes accumulated, message incomplete) every call but the last must answer Incomplete, got {}", plen, padding.len(), descr, i + 1, boundaries[i], show_sum(&got));
+            ensure!(p.defrag_in_progress(), "C07:big-heartbeat:flag-off", "heartbeat sent as {}: defrag_in_progress() must be true after fragment {}", descr, i + 1);
+        } else {
+            match got {
+                Sum::Ok { msgs, rem } => {
+                    ensure!(msgs == vec![msg.clone()], "C07:big-heartbeat:messages", "heartbeat of 3+{}+{} bytes sent as {}: the last fragment must return the message, got {}", plen, padding.len(), descr, trunc(&format!("{:?}", msgs)));
+                    ensure!(rem == padding, "C07:big-heartbeat:remainder", "heartbeat sent as {}: remainder {} bytes, expected the {} padding bytes", descr, rem.len(), padding.len());
+                }
+                o => return fail("C07:big-heartbeat:last-not-ok", format!("heartbeat of 3+{}+{} bytes sent as {}: the last fragment ({} bytes accumulated) must complete the message, got {}", plen, padding.len(), descr, bytes.len(), show_sum(&o))),
+            }
+            ensure!(!p.defrag_in_progress(), "C07:big-heartbeat:flag-stuck", "heartbeat sent as {}: defragmentation must end with the last fragment", descr);
+        }
+    }
+    obs.nontrivial(fnv64(format!("{}/{:?}", plen, cuts).as_bytes()));
+    if bytes.len() > 65535 {
+        obs.class("message-longer-than-65535");
+    }
+    if boundaries.iter().any(|&b| (65536..=65538).contains(&b)) {
+        obs.class("boundary-at-65536..65538");
+    }
+    if boundaries.iter().any(|&b| b == 65535) {
+        obs.class("boundary-at-65535");
+    }
+    obs.sample_class(if bytes.len() > 65535 { "over-64KiB" } else { "under-64KiB" }, || json!({"payload_length": plen, "padding": padding.len(), "fragments": descr}));
     Ok(())
 }
 
